@@ -116,6 +116,10 @@ def points(tier: str) -> List[dict]:
         pts.append({"kind": "many_positions", "k": k, "per": 60, "height": 8, "limit": 4, "expect_n": 4, "total": k * 60})
     for n in (65533, 65534, 65535, 65536, 65537):
         pts.append({"kind": "many_domains", "n": n, "height": 4, "limit": 2, "expect_n": 2, "total": n + 1})
+    for n in (65534, 65535, 65536, 65537, 65538, 65540, 70000):
+        # x0 + x1 <= 3 over [0,3]^2: 10 solutions, each a vector of n values whose last one is 3 (or a refusal)
+        pts.append({"kind": "many_domains_decided", "n": n, "height": 8, "limit": 100, "expect_n": 10, "decision": [0, 1],
+                    "expect_sums": sorted(a + b + 3 for a in range(4) for b in range(4) if a + b <= 3), "total": n})
     for n in (254, 255, 256, 257, 258):
         pts.append({"kind": "many_types", "n": n, "height": 8, "limit": 4, "expect_n": 3, "total": n})
     for p in pts:
@@ -175,6 +179,8 @@ def judge(spec: dict, res: dict, mode: str):
         want = spec["expect_n"]
         if pt["n"] != want:
             return "violation", ("wrong-result", f"{mode}: {pt['n']} solutions, expected {want}: {pt['solutions'][:3]}")
+        if "expect_sums" in spec and sorted(s_[0] for s_ in pt["solutions"]) != spec["expect_sums"]:
+            return "violation", ("wrong-result", f"{mode}: solutions (sum, length) {pt['solutions'][:4]}.., expected sums {spec['expect_sums']}")
         return "ok-equal", ""
     needs = spec.get("needs")
     if needs is not None and isinstance(spec["height"], int) and spec["height"] >= 1 and needs > spec["height"]:
